@@ -82,7 +82,6 @@ func (b *Builder) Build() (*DFA, error) {
 		nfa:              b.nfa,
 		config:           b.config,
 		prefilter:        pf,
-		pikevm:           nfa.NewPikeVM(b.nfa),
 		byteClasses:      b.nfa.ByteClasses(),
 		unanchoredStart:  b.nfa.StartUnanchored(),
 		hasWordBoundary:  hasWordBoundary,
@@ -516,10 +515,10 @@ func CompileWithPrefilter(n *nfa.NFA, config Config, pf prefilter.Prefilter) (*D
 //
 // The provided PikeVM must be built from the same NFA (or a compatible variant)
 // used to compile this DFA. Thread safety: PikeVM's Search methods use internal
-// state, so the DFA's NFA fallback path is not thread-safe. However, in practice
-// the meta layer always uses per-goroutine SearchState with its own PikeVM for
-// actual searches, and the DFA's embedded PikeVM is only used during DFA-internal
-// fallback within a single goroutine's search path.
+// state, so a PikeVM owned by the DFA (which is shared by all goroutines) cannot
+// be used by the NFA fallback. The fallback therefore runs on a PikeVM owned by
+// the per-goroutine DFACache (see fallbackPikeVM), created on first use, and the
+// PikeVM set here is no longer used by searches.
 func (d *DFA) SetPikeVM(pvm *nfa.PikeVM) {
 	d.pikevm = pvm
 }
